@@ -14,7 +14,7 @@
 From Coq Require Import ZArith List Lia.
 Import ListNotations.
 From Mds Require Import Gen.OmapConst Stree.StreeModel Stree.StreeSpec Omap.OmapModel Omap.OmapSpec Omap.OmapProofs
-  Omap.OmapSpecFacts.
+  Omap.OmapSpecFacts Omap.OmapTrace Omap.OmapTraceSpec Omap.OmapTraceProofs.
 
 (* For every key and value type, every lawful comparison of keys, every depth-limit function of
    the underlying tree (so: whatever rebalancing happens), every zero key/value and every history:
@@ -31,6 +31,26 @@ Theorem C04_history : forall (K V : Type) (kcmp : K -> K -> Z), total_preorder k
   run_from K V kcmp limit zk zv (zero_map K V) ops = spec_run_from K V kcmp zk zv None ops.
 Proof. exact omap_history. Qed.
 Print Assumptions C04_history.
+
+(* Sessions with PERSISTENT iterators (the form the correspondence traces have, OmapTrace.v): up to
+   four iterators are kept in registers across the other operations of the history.  An iterator
+   positioned before an edit is stale (the package: "you will need to re-synchronize any iterators
+   after the edits") and is not moved or read until Iter.Seek re-synchronizes it, which any
+   register may do at any time, also after arbitrary edits.  Ops: Set/Delete/Clear, Get AND GetOK,
+   Len, Keys, String, First/Last/Seek into a register, Iter.Seek/Next/Prev on a register, and the
+   loops "for ; it.IsValid(); it.Next()" / "...Prev()" bounded by Len+2 steps; after every
+   iterator op the (IsValid, Key, Value) of every non-stale register is observed.
+   For every lawful comparison, depth-limit function and list of such ops, on a Map from
+   New/NewFunc (zero = false) and on the zero Map (zero = true): every output of the model equals
+   the reference machine's (OmapTraceSpec.v: indices into the sorted association list; the loops in
+   closed form: from index j Next visits exactly l[j..] and Prev exactly l[j], ..., l[0], ending
+   invalid — so the Len+2 bound is never what stops them; Set on the zero Map panics and ends the
+   case). *)
+Theorem C04_sessions : forall (K V : Type) (kcmp : K -> K -> Z), total_preorder kcmp ->
+  forall (limit : Z -> Z -> Z) (zk : K) (zv : V) (zero : bool) (ops : list (top K V)),
+  run_trace K V kcmp limit zk zv zero ops = spec_trace K V kcmp zk zv zero ops.
+Proof. exact trace_refines. Qed.
+Print Assumptions C04_sessions.
 
 (* ---- The reference says what the property text says.  These are statements about OmapSpec only
    (an association list [l] ascending by key, [sorted (kvcmp K V kcmp) l]); by C04_history they
@@ -133,3 +153,16 @@ Proof. vm_compute. reflexivity. Qed.
 Example C04_ref_from_seek_example :
   a_iter Z Z Z.sub 0%Z 0%Z ex_l (ISeek 4%Z) [IPrev; IPrev] = [(true, 5, 50); (true, 1, 10); (false, 0, 0)]%Z.
 Proof. vm_compute. reflexivity. Qed.
+
+(* an iterator kept across a Delete is stale until Iter.Seek; sweeps from re-synchronized positions;
+   a register never assigned cannot be re-synchronized; the zero Map *)
+Example C04_sessions_example :
+  run_trace_int Z.sub false
+    [TSet 5 50; TSet 1 10; TSet 9 90; TFirst 0; TNext 0; TDelete 5; TNext 0; TReseek 0 5; TSweepNext 0;
+     TLast 1; TSweepPrev 1; TGet 9; TString; TReseek 2 1]%Z =
+  [XBool true; XBool true; XBool true; XRegs [Some (true, 1, 10)]; XRegs [Some (true, 5, 50)]; XBool true; XStale;
+   XRegs [Some (true, 9, 90)]; XSweep [(9, 90)] false; XRegs [Some (false, 0, 0); Some (true, 9, 90)];
+   XSweep [(9, 90); (1, 10)] false; XGet 90 90 true; XString [(1, 10); (9, 90)]; XStale]%Z /\
+  run_trace_int Z.sub true [TLen; TFirst 0; TNext 0; TSweepPrev 0; TSet 1 1; TLen]%Z =
+  [XLen 0; XRegs [Some (false, 0, 0)]; XRegs [Some (false, 0, 0)]; XSweep [] false; XPanic]%Z.
+Proof. vm_compute. split; reflexivity. Qed.
